@@ -1,6 +1,7 @@
 """C11 - batch runs map files one-to-one, isolate failures and are deterministic."""
 import json
 import os
+import posixpath
 import shutil
 import tempfile
 from concurrent.futures import ThreadPoolExecutor
@@ -91,6 +92,11 @@ def path_definitions():
         name, "; ".join('comp "%s"' % c.encode("utf-8").hex() for c in comps)) for comps, name in PATH_NAMES.items())
 
 
+def norm(p):
+    """`./x`, `a/../x`, `x/.`, `x/` are the same path (lexical normalisation, as utils::normalize_path)"""
+    return posixpath.normpath(p)
+
+
 def lua_ext(path):
     """Path::extension is lua/luau - written independently of the model"""
     name = path.rsplit("/", 1)[-1]
@@ -142,7 +148,9 @@ def oracle(rec, run, disk):
     if "process_error" in run:
         return [("process returned an error instead of reporting per file", {"error": run["process_error"]})]
     before, after = run["before"], run["after"]
-    items = {(it["source"], it["output"]): it for it in run["items"]}
+    items = {(norm(it["source"]), norm(it["output"])): it for it in run["items"]}
+    if len(items) != len(run["items"]):
+        problems.append(("two work items have the same source and output", {}))
     exp = expected_items(rec, run, disk)
     if set(items) != exp:
         problems.append(("the work items are not exactly the Lua files under the input at their mirrored paths",
@@ -172,16 +180,17 @@ def oracle(rec, run, disk):
             n_err += 1
             if s not in faulty and not (disk and unwritable(rec, o, run)):
                 problems.append(("a file that is not faulty was reported as failing", {"source": s, "error": it["error"][:200]}))
-            if named_path(it["error"]) != s:
+            named = named_path(it["error"])
+            if named is None or norm(named) != s:
                 parts = o.split("/")
                 ancestors = ["/".join(parts[:k]) for k in range(1, len(parts))]
-                if disk and any("`%s`" % a in it["error"] for a in ancestors):
+                if disk and named is not None and norm(named) in ancestors:
                     problems.append(("KNOWN:unwritable-parent", {"source": s, "error": it["error"][:200]}))
                 else:
                     problems.append(("the error of a failing file does not name its source path",
                                      {"source": s, "output": o, "named": named_path(it["error"]),
                                       "error": it["error"][:200]}))
-            if o != s and ("`%s`" % o) in it["error"] and not (disk and unwritable(rec, o, run)):
+            if o != s and named is not None and norm(named) == o and not (disk and unwritable(rec, o, run)):
                 problems.append(("the error of a failing file names its output path",
                                  {"source": s, "output": o, "error": it["error"][:200]}))
             if after.get(o) != before.get(o):
@@ -200,9 +209,16 @@ def oracle(rec, run, disk):
                 written = after.get(o)
                 if written is None:
                     problems.append(("an empty / blank / comment-only source got no output", {"source": s, "output": o}))
-                elif not rec.get("stamp") and bytes.fromhex(written).strip() != b"":
+                elif not rec.get("stamp") and not rec.get("identity") and bytes.fromhex(written).strip() != b"":
                     problems.append(("the output of an empty / blank / comment-only source is not an empty chunk",
                                      {"source": s, "output": o, "written": bytes.fromhex(written)[:80].decode("latin-1")}))
+    if rec.get("identity"):
+        # rules [] with the token-preserving generator: the output is the source, byte for byte
+        for (s, o), it in items.items():
+            if it["status"] == "ok" and after.get(o) != before.get(s):
+                problems.append(("under the identity configuration the output is not the source text",
+                                 {"source": s, "output": o,
+                                  "written": bytes.fromhex(after.get(o) or "")[:80].decode("latin-1")}))
     if rec["fail_fast"] and n_err > 1:
         problems.append(("fail-fast run continued after the first error", {"errors": n_err}))
     # order-independent: a run that meets a faulty file reports it, fail-fast or not
@@ -244,11 +260,12 @@ def coq_case(run, rec, reference=None):
     fs = "; ".join("(%s, %s)" % (cpath(p), blob(h)) for p, h in sorted(run["before"].items()))
     out = "None" if rec["output"] is None else "(Some %s)" % cpath(rec["output"])
     if "items" in run:
-        items = "(Some [%s])" % "; ".join("(%s, %s)" % (cpath(it["source"]), cpath(it["output"])) for it in run["items"])
+        items = "(Some [%s])" % "; ".join("(%s, %s)" % (cpath(norm(it["source"])), cpath(norm(it["output"])))
+                                          for it in run["items"])
         src = reference or run
-        outcomes = "; ".join("(%s, %s)" % (cpath(it["source"]),
-                                           "Some %s" % blob(src["after"][it["output"]])
-                                           if it["status"] == "ok" and it["output"] in src["after"] else "None")
+        outcomes = "; ".join("(%s, %s)" % (cpath(norm(it["source"])),
+                                           "Some %s" % blob(src["after"][norm(it["output"])])
+                                           if it["status"] == "ok" and norm(it["output"]) in src["after"] else "None")
                              for it in src["items"])
     else:
         items, outcomes = "None", ""
@@ -266,6 +283,12 @@ def two_runs(args):
     ra = [json.loads(l) for l in a.splitlines() if l.startswith("{")]
     rb = [json.loads(l) for l in b.splitlines() if l.startswith("{")]
     return ra, rb
+
+
+def collected_faulty_unwritable(rec, full, disk):
+    """disk: an item failed because an ancestor of its output is a plain file (known class): after the edit
+    run its sibling outputs are the same anyway, nothing to exclude"""
+    return False
 
 
 def determinism_class(rec):
@@ -286,6 +309,7 @@ def check_stream(ctx, name, ra, rb, disk, cases, case_index):
     for a, b in zip(ra, rb):
         replay = {"scenario": a["id"], "shape": a["shape"], "input": a["input"], "output": a["output"],
                   "fail_fast": a["fail_fast"], "bundle": a["bundle"], "faulty": a["faulty"], "kinds": a["kinds"],
+                  "input_argument": a.get("input_arg"), "output_argument": a.get("output_arg"),
                   "replay": "harness/target/release/dl-c11 one --seed %d --case %d%s" % (
                       ctx.seed, a["id"], " --root /tmp/<dir>" if disk else "")}
         full = a["full"]
@@ -319,6 +343,28 @@ def check_stream(ctx, name, ra, rb, disk, cases, case_index):
                 else:
                     ctx.violation(what, dict(replay, run=which, detail=detail),
                                   key="oracle:%s:%d:%s" % (name, a["id"], what[:24]))
+        # ---- the outputs depend on the input tree only: the same run into an EMPTY output location
+        if "clean_output" in a and "items" in full and "items" in a["clean_output"] and det_class is None:
+            clean = a["clean_output"]
+            for it in items:
+                o = norm(it["output"])
+                if it["status"] == "ok" and full["after"].get(o) != clean["after"].get(o):
+                    ctx.violation("the output differs from the same run without the files that were already at the output paths "
+                                  "(a stale output survived or leaked into the result)",
+                                  dict(replay, source=it["source"], output=o, prepopulated=a["prepopulated"],
+                                       identity_configuration=a["identity"]),
+                                  key="prepopulated:%s:%d" % (name, a["id"]))
+        # ---- run, edit a source, run, restore it, run: as if only the last run had happened
+        if "sequence" in a and "items" in full and det_class is None and not collected_faulty_unwritable(a, full, disk):
+            seq = a["sequence"]
+            if not seq["ok"] and not any(it["status"] == "err" for it in items):
+                ctx.violation("a repeated run failed", dict(replay, victim=seq["victim"]), key="sequence-failed:%s:%d" % (name, a["id"]))
+            diff = sorted(p for p in set(seq["after"]) | set(full["after"]) if seq["after"].get(p) != full["after"].get(p))
+            if diff:
+                ctx.violation("after edit, run, restore, run the tree differs from a single run over the same inputs",
+                              dict(replay, victim=seq["victim"], differing_paths=diff[:6],
+                                   identity_configuration=a["identity"]),
+                              key="sequence:%s:%d" % (name, a["id"]))
         # ---- isolation: the good files come out as if the faulty ones were absent
         if not a["fail_fast"] and "items" in full and "items" in a["without_faulty"] and det_class is None:
             wo = a["without_faulty"]
@@ -444,11 +490,15 @@ def run(ctx):
         shutil.rmtree(root_b, ignore_errors=True)
     da = [json.loads(l) for l in outs[0].splitlines() if l.startswith("{")]
     db = [json.loads(l) for l in outs[1].splitlines() if l.startswith("{")]
+    case_sensitive = all(r.get("case_sensitive_file_system", True) for r in da + db if "id" not in r)
+    da = [r for r in da if "id" in r]
+    db = [r for r in db if "id" in r]
     if len(da) != n_disk or len(db) != n_disk:
         raise C.CheckBroken("disk stream: expected %d scenarios, got %d / %d" % (n_disk, len(da), len(db)))
     nt, samples = check_stream(ctx, "disk", da, db, True, cases, case_index)
     ctx.stream("real temporary directories: the same oracles, plus invalid UTF-8, directory named *.lua, unwritable destination",
-               n_disk, nt, samples)
+               n_disk, nt, samples, case_sensitive_file_system=case_sensitive,
+               case_pairs_on_disk="generated" if case_sensitive else "skipped: the file system folds case")
 
     n_rc = 200 if quick else 3000
     ra, rb = two_runs(["luaurc", "--seed", str(ctx.seed), "--n", str(n_rc)])
